@@ -181,7 +181,22 @@ func sprintf(f string, a ...interface{}) string { return fmt.Sprintf(f, a...) }
 
 // isParam reports whether v is parameter #i of fn (counting the receiver as 0).
 func isParam(v ssa.Value, fn *ssa.Function, i int) bool {
-	return i < len(fn.Params) && an.Strip(v) == ssa.Value(fn.Params[i])
+	if i >= len(fn.Params) {
+		return false
+	}
+	v = an.Strip(v)
+	if v == ssa.Value(fn.Params[i]) {
+		return true
+	}
+	// a parameter captured by a closure is spilled to a heap cell and re-loaded
+	if u, ok := v.(*ssa.UnOp); ok && u.Op == token.MUL {
+		if al, ok := u.X.(*ssa.Alloc); ok {
+			if sv := an.SingleStore(al); sv != nil && sv == ssa.Value(fn.Params[i]) {
+				return true
+			}
+		}
+	}
+	return false
 }
 
 // loadOfField: v is a load of field `f` from base (any base when base==nil).
